@@ -116,3 +116,55 @@ Proof. exact glyph_tie. Qed.
 (* the seven regular expressions of ptn.py (regenerated) are the ones the model was written against *)
 Theorem C14_regex_tie : Consts.ptn_regexes = model_regexes.
 Proof. exact tie_regexes. Qed.
+
+(* ---- the hand-written matchers are the regular expressions of ptn.py (spec/RegexSpec.v) ---- *)
+From TV Require Import spec.RegexSpec proofs.TiePtnRegex.
+
+(* the seven regex texts of ptn.py (regenerated) are the printed AST terms, and the terms print faithfully *)
+Theorem C14_regex_ast_text :
+  length Consts.ptn_regexes = 7%nat /\
+  show tag_re = nth 0 Consts.ptn_regexes [] /\ show comment_re = nth 1 Consts.ptn_regexes [] /\
+  show space_re = nth 2 Consts.ptn_regexes [] /\ show result_re = nth 3 Consts.ptn_regexes [] /\
+  show number_re = nth 4 Consts.ptn_regexes [] /\ show suffix_re = nth 5 Consts.ptn_regexes [] /\
+  show move_re = nth 6 Consts.ptn_regexes [] /\
+  forallb syntax_ok [tag_re; comment_re; space_re; result_re; number_re; suffix_re; move_re] = true.
+Proof. exact regex_ast_text. Qed.
+(* re.search(move regex, s) succeeds with groups g exactly when match_move s = Some g (hence at most one match) *)
+Theorem C14_move_regex_matcher : forall s cp,
+  search E move_re s cp <-> exists g, match_move s = Some g /\ cp = caps_of g.
+Proof. exact move_matcher. Qed.
+(* the result-marker filter is re.search of its regex *)
+Theorem C14_result_regex_matcher : forall t, is_result t = true <-> exists cp, search E result_re t cp.
+Proof. exact is_result_matcher. Qed.
+(* the move-number filter is re.search of its regex *)
+Theorem C14_number_regex_matcher : forall t, is_move_number t = true <-> exists cp, search E number_re t cp.
+Proof. exact is_move_number_matcher. Qed.
+(* strip_suffix t is what re.sub(suffix regex, "", t) leaves for a token without a newline: no match -> unchanged;
+   otherwise the leftmost match starts right after strip_suffix t, is unique there and reaches the end *)
+Theorem C14_suffix_regex_sub : forall t,
+  ~ In 10 t ->
+  exists suf, t = strip_suffix t ++ suf /\
+    (suf = [] -> forall pre s post cp, t = pre ++ s ++ post -> ~ matches E suffix_re pre s post cp) /\
+    (suf <> [] ->
+       matches E suffix_re (strip_suffix t) suf [] [] /\
+       (forall pre s post cp, t = pre ++ s ++ post -> matches E suffix_re pre s post cp ->
+                              (length (strip_suffix t) <= length pre)%nat) /\
+       (forall s post cp, suf = s ++ post -> matches E suffix_re (strip_suffix t) s post cp -> s = suf /\ post = [])).
+Proof. exact strip_suffix_is_sub. Qed.
+(* sub_comments is re.sub(comment regex, " ", .): leftmost, non-overlapping, the match at each start unique *)
+Theorem C14_comment_regex_sub : forall s ctx, resub E comment_re [32] ctx s (sub_comments s 0).
+Proof. exact sub_comments_is_sub. Qed.
+(* partial: one match of the split regex is a non-empty white-space run; the greedy splitting function
+   re_split_ws itself is tied by the correspondence only *)
+Theorem C14_space_regex_match_partial : forall pre s post cp,
+  matches E space_re pre s post cp <-> cp = [] /\ s <> [] /\ Forall (fun c => is_space c = true) s.
+Proof. exact space_re_match_partial. Qed.
+(* partial: one attempt of the tag regex at a line start is try_tag (both directions); the findall scan
+   scan_tags and dict() are tied by the correspondence only *)
+Theorem C14_tag_regex_attempt_partial :
+  (forall text k v n, try_tag text = TagOk k v n ->
+     exists s post, text = s ++ post /\ n = length s /\
+                    forall pre, line_start pre -> matches E tag_re pre s post [(1%nat, k); (2%nat, v)]) /\
+  (forall pre s post cp, matches E tag_re pre s post cp ->
+     exists k v, cp = [(1%nat, k); (2%nat, v)] /\ try_tag (s ++ post) = TagOk k v (length s)).
+Proof. exact tag_attempt_partial. Qed.
